@@ -55,7 +55,7 @@ TRUSTED = [
     "C18 /proc/<pid>/status: `Cpus_allowed_list` is the task's current mask printed as a range list (%*pbl); the harness renderer is checked against the live kernel on every run",
 ]
 MANIFEST = {
-    "level_text": "Machine-checked Lean 4 proofs over a layered model: simulated kernel (rules + the EPERM/EACCES permission tests of setpriority(2), ioprio_set(2), sched_setaffinity(2), prlimit(2); sched_getaffinity(2) refusing a mask shorter than nr_cpu_ids), native layer (translator's IOPRIO_CLASS_SHIFT; errno protocol of the three getters; the return-value tests of the three setters; the sizing loop of the affinity getter), _pslinux.Process under wrap_exceptions, psutil.Process, and the arguments as Python objects. EVERY property theorem is stated for stepPy - the call as the caller writes it, in an execution context (entry errno, status file cached by oneshot()) - which is what the driver runs against the real code (stepPy cfg, cfg built from the translator's facts); the theorems quantify over every configuration that is Good and has the EINVAL->ValueError fall-through, and cfg_good / cfg_einval_is_valueError are the obligations that the current source is one (the superseded layer `step` of rounds 1-2 is a proof layer in Proofs/C18Step.lean, nothing is claimed about it). C18_refines_py: for every kernel state, existing process, context and request, whatever the specification promises to this caller (expectPy: written from the statement and the man pages; nothing is promised where the caller lacks the privilege) the call yields exactly that result and that kernel (all per-process states + effect log); C18_refines_code_py is the instance for the code as it is, outside the region of the known finding C18-huge-cpu-overflowerror. Named clauses, all for stepPy: C18_py_get_nice/_ionice/_affinity/_rlimit (get returns the kernel's value, every entry errno, nice -1 included, kernels with up to 1024 possible CPU ids through the sizing loop); C18_py_set_then_get_nice/_ionice/_affinity/_rlimit (every valid value the caller is permitted to set, every argument form: success, exactly that attribute replaced, exactly one effect logged, get in any context returns it); C18_py_others_unchanged and C18_exception_no_effect (frame; EVERY raising call leaves the kernel exactly as it was); C18_py_invalid_ValueError_no_effect (level outside 0-7 for EVERY class, level for idle/none, level without class, limits not a pair: ValueError, nothing changes, for every caller); C18_py_empty_selects_all_eligible. CPU lists naming only unusable CPUs: C18_invalid_cpus_Full is the statement for ANY ints; it is refuted for the source as found (C18_invalid_cpus_counterexample: cpu_affinity([2**63]) raises OverflowError - known finding C18-huge-cpu-overflowerror, PENDING fixes/C18-affinity-overflow-valueerror.diff), proved for every list of C longs (C18_py_invalid_cpus_partial) and for the repaired source (C18_invalid_cpus_repaired; fact affinityOverflowRaisesValueError); C18_huge_cpu_raises: in the region nothing changes. Privileges: C18_py_nice_refused (foreign process -> EPERM, lowering beyond RLIMIT_NICE -> EACCES: AccessDenied, kernel unchanged) and C18_unchecked_setter_counterexample (with the return-value test dropped from psutil_posix_setpriority the refused call returns None while the kernel keeps the old value; facts setpriorityChecksRetval / ioprioSetChecksRetval / affinitySetChecksRetval feed cfg_good). Sizing loop: C18_affinity_get_sizing_loop (200 CPU ids: two EINVAL rounds then the mask; errno test flipped -> OSError(EINVAL); mask never grows -> no return; success read from errno -> stale EINVAL), facts affinityGetInitBits / affinityGetRetryTest / affinityGetGrowth / affinityGetErrTest feed cfg_good. Counterexamples for the superseded / seeded shapes: C18_stale_errno_counterexample (three broken errno protocols, seeded C18-1), C18_einval_fallthrough_needed (before aebc260; stale status file inside oneshot()), C18_empty_request_shape_counterexamples (empty list resolved through the status file; range(len(per_cpu_times())) with an offline CPU / virtualised /proc/stat, seeded C18-2), C18_empty_selects_all_eligible_with_holes. Arguments as Python objects: C18_arg_form_irrelevant, C18_same_values_same_effect, C18_cpu_iterator; characterisations outside the statement: C18_empty_iterator_is_refused, C18_limits_iterator_TypeError; C18_gone_process, C18_rlimit_pid0_refused, C18_pid0_is_the_caller. Who is calling (round 5, seeded C18-5): stepPyW c rt og (Model/C18Who.lean) is stepPy with every system call addressed as the translator's routing facts addr* say (self.pid | the caller when self.pid == os.getpid() evaluated in the call / remembered on the object / remembered at import | always the caller), made by process k.self of a program whose module was imported by og.importPid and whose object was made by og.createPid; it is what the driver runs (stepPyW cfg routing). cfg_routing_direct is the obligation that every form hands self.pid to every process primitive it calls; C18_any_caller_refines / _code: the refinement for EVERY caller and EVERY fork history; C18_set_reaches_exactly_that_process: no process other than the target - in particular not the caller, not the importing process - changes, and a promised rlimit set shows in the target's kernel state; C18_remembered_pid_shortcut_counterexample: forked child 9 of importer 7 sets its parent's RLIMIT_NOFILE through a short cut keyed on the import-time pid -> the child's limits change, the parent's do not (and the relatives: pid remembered on the object, unconditional caller primitive), invisible in the importing process; C18_caller_shortcut_sound: a short cut keyed on os.getpid() evaluated in the call (or on a remembered pid while no fork lies in between) is sound. Tied to the code by 38 translator facts (total extractors, extracted independently) feeding cfg_good, by an exhaustive differential run against a simulated kernel over a fake procfs in randomised call modes, and by live runs through the freshly built extension: a spawned child as root (state read back from the OS after every call), a real zombie, a /proc/stat with a missing cpuN line, a forked copy of the harness that drops to an unprivileged uid and calls on itself and on root's child (EPERM/EACCES must reach the caller; a set form that returns must show its value in the kernel), and a fresh interpreter under an LD_PRELOAD shim whose sched_getaffinity refuses masks shorter than a pretended nr_cpu_ids of 64..1024 (the growth branch of the sizing loop runs 0-4 rounds).",
+    "level_text": "Machine-checked Lean 4 proofs over a layered model: simulated kernel (rules + the EPERM/EACCES permission tests of setpriority(2), ioprio_set(2), sched_setaffinity(2), prlimit(2); sched_getaffinity(2) refusing a mask shorter than nr_cpu_ids), native layer (translator's IOPRIO_CLASS_SHIFT; errno protocol of the three getters; the return-value tests of the three setters; the sizing loop of the affinity getter), _pslinux.Process under wrap_exceptions, psutil.Process, and the arguments as Python objects. EVERY property theorem is stated for stepPy - the call as the caller writes it, in an execution context (entry errno, status file cached by oneshot()) - which is what the driver runs against the real code (stepPy cfg, cfg built from the translator's facts); the theorems quantify over every configuration that is Good and has the EINVAL->ValueError fall-through, and cfg_good / cfg_einval_is_valueError are the obligations that the current source is one (the superseded layer `step` of rounds 1-2 is a proof layer in Proofs/C18Step.lean, nothing is claimed about it). C18_refines_py: for every kernel state, existing process, context and request, whatever the specification promises to this caller (expectPy: written from the statement and the man pages; nothing is promised where the caller lacks the privilege) the call yields exactly that result and that kernel (all per-process states + effect log); C18_refines_code_py is the instance for the code as it is, outside the region of the known finding C18-huge-cpu-overflowerror. Named clauses, all for stepPy: C18_py_get_nice/_ionice/_affinity/_rlimit (get returns the kernel's value, every entry errno, nice -1 included, kernels with up to 1024 possible CPU ids through the sizing loop); C18_py_set_then_get_nice/_ionice/_affinity/_rlimit (every valid value the caller is permitted to set, every argument form: success, exactly that attribute replaced, exactly one effect logged, get in any context returns it); C18_py_others_unchanged and C18_exception_no_effect (frame; EVERY raising call leaves the kernel exactly as it was); C18_py_invalid_ValueError_no_effect (level outside 0-7 for EVERY class, level for idle/none, level without class, limits not a pair: ValueError, nothing changes, for every caller); C18_py_empty_selects_all_eligible. CPU lists naming only unusable CPUs: C18_invalid_cpus_Full is the statement for ANY ints; it holds for the code as it is (C18_invalid_cpus, through the obligation cfg_overflow_is_valueError, since /repo 90c3e72 repaired defect C18-huge-cpu-overflowerror); it is refuted for the source as found before that commit (C18_invalid_cpus_counterexample: cpu_affinity([2**63]) raised OverflowError), proved for every list of C longs (C18_py_invalid_cpus_partial) and for any repaired configuration (C18_invalid_cpus_repaired; fact affinityOverflowRaisesValueError); C18_huge_cpu_raises: in the region nothing changes. Privileges: C18_py_nice_refused (foreign process -> EPERM, lowering beyond RLIMIT_NICE -> EACCES: AccessDenied, kernel unchanged) and C18_unchecked_setter_counterexample (with the return-value test dropped from psutil_posix_setpriority the refused call returns None while the kernel keeps the old value; facts setpriorityChecksRetval / ioprioSetChecksRetval / affinitySetChecksRetval feed cfg_good). Sizing loop: C18_affinity_get_sizing_loop (200 CPU ids: two EINVAL rounds then the mask; errno test flipped -> OSError(EINVAL); mask never grows -> no return; success read from errno -> stale EINVAL), facts affinityGetInitBits / affinityGetRetryTest / affinityGetGrowth / affinityGetErrTest feed cfg_good. Counterexamples for the superseded / seeded shapes: C18_stale_errno_counterexample (three broken errno protocols, seeded C18-1), C18_einval_fallthrough_needed (before aebc260; stale status file inside oneshot()), C18_empty_request_shape_counterexamples (empty list resolved through the status file; range(len(per_cpu_times())) with an offline CPU / virtualised /proc/stat, seeded C18-2), C18_empty_selects_all_eligible_with_holes. Arguments as Python objects: C18_arg_form_irrelevant, C18_same_values_same_effect, C18_cpu_iterator; characterisations outside the statement: C18_empty_iterator_is_refused, C18_limits_iterator_TypeError; C18_gone_process, C18_rlimit_pid0_refused, C18_pid0_is_the_caller. Who is calling (round 5, seeded C18-5): stepPyW c rt og (Model/C18Who.lean) is stepPy with every system call addressed as the translator's routing facts addr* say (self.pid | the caller when self.pid == os.getpid() evaluated in the call / remembered on the object / remembered at import | always the caller), made by process k.self of a program whose module was imported by og.importPid and whose object was made by og.createPid; it is what the driver runs (stepPyW cfg routing). cfg_routing_direct is the obligation that every form hands self.pid to every process primitive it calls; C18_any_caller_refines / _code: the refinement for EVERY caller and EVERY fork history; C18_set_reaches_exactly_that_process: no process other than the target - in particular not the caller, not the importing process - changes, and a promised rlimit set shows in the target's kernel state; C18_remembered_pid_shortcut_counterexample: forked child 9 of importer 7 sets its parent's RLIMIT_NOFILE through a short cut keyed on the import-time pid -> the child's limits change, the parent's do not (and the relatives: pid remembered on the object, unconditional caller primitive), invisible in the importing process; C18_caller_shortcut_sound: a short cut keyed on os.getpid() evaluated in the call (or on a remembered pid while no fork lies in between) is sound. Tied to the code by 38 translator facts (total extractors, extracted independently) feeding cfg_good, by an exhaustive differential run against a simulated kernel over a fake procfs in randomised call modes, and by live runs through the freshly built extension: a spawned child as root (state read back from the OS after every call), a real zombie, a /proc/stat with a missing cpuN line, a forked copy of the harness that drops to an unprivileged uid and calls on itself and on root's child (EPERM/EACCES must reach the caller; a set form that returns must show its value in the kernel), and a fresh interpreter under an LD_PRELOAD shim whose sched_getaffinity refuses masks shorter than a pretended nr_cpu_ids of 64..1024 (the growth branch of the sizing loop runs 0-4 rounds).",
     "level_note": "Trusted: Lean kernel + {propext, Classical.choice, Quot.sound}; translator; correspondence harness; the simulated kernel's rules and permission tests (validated live on this kernel only; ioprio class masking is that of Linux >= 6.x); a cpuset is given as cpuset-and-online (the simulated sched_setaffinity intersects with it); /proc/stat shows at most ncpu cpuN lines; ncpu (= nr_cpu_ids) <= 1024; the sim part replaces the 7 native entry points by recorders (C edits are seen by the translator and the live parts only); single-threaded targets; PID reuse guard is C01's. No open finding: C18-huge-cpu-overflowerror was repaired by /repo 90c3e72 (obligation cfg_overflow_is_valueError, full statement C18_invalid_cpus).",
     "technique": "Lean 4 refinement proof by case analysis over requests + bridge lemma (permitted caller, good configuration: complete system calls / errno protocol / failure tests / sizing loop collapse to the proof layer) + bit-arithmetic lemmas + translator-fed proof obligations + exhaustive differential correspondence (simulated kernel) in randomised call modes + live differential runs (root child with poisoned errno, zombie, holed /proc/stat, unprivileged forked caller, LD_PRELOAD shim forcing EINVAL in the affinity getter, a fresh interpreter that imports psutil and forks: the child calls on its parent / itself / a third process) + caller-identity dimension in the simulated part (os.getpid() and the caller-addressed primitives simulated; every assignment of importer / creator / caller roles)",
     "design_ref": "DESIGN.md §5 C18",
